@@ -30,6 +30,15 @@ def run(ctx) -> None:
     for kind in ("add", "remove"):
         ctx.reuse("C03.tracking-rejects", c02.guard, kind)
         ctx.reuse("C03.tracking-rejects", c02.nonneg, kind)
+    ctx.reuse("C03.tracking-rejects", c02.ctor)
+    # the tracking call only protects the worklist if it is handed what the records will say
+    from . import c01, c06
+
+    for dev in concrete_devices(ctx):
+        for meth, track, kind_ in (("aspirate", "remove", "A"), ("dispense", "add", "D")):
+            ctx.reuse("C03.tracked-amount", c01.pair_ad, dev, meth, track, kind_)
+    ctx.reuse("C03.tracked-amount", c01.pair_distribute, "C01.pair-distribute")
+    ctx.reuse("C03.step-guard", c06.multi_disp)
     ctx.guard("C03.step-guard", step_guard_validator)
     ctx.guard("C03.step-guard", step_guard_wiring)
     ctx.guard("C03.step-guard", step_guard_evo)
